@@ -89,6 +89,9 @@ type scenario struct {
 	// Lazy: nobody reads socket #*Lazy before phase 1 has settled (its receive queue,
 	// capacity 1024, fills up)
 	Lazy   *int        `json:"lazy,omitempty"`
+	// LateHost: after the traffic phase a host is attached to the (running) router of socket
+	// #*LateHost, with the address x.y.z.199 that datagrams were sent to in vain before
+	LateHost *int      `json:"lateHost,omitempty"`
 	Rebind *rebindSpec `json:"rebind,omitempty"`
 }
 
@@ -264,6 +267,10 @@ func gen(r *harn.Rng, tier string) interface{} {
 		}
 	} else if r.Bool(0.12) {
 		sc.Rebind = &rebindSpec{Sock: r.Intn(len(socks)), AtNs: int64(r.Pick(0, 1000, 100000, 1000000, 3000000)), GapNs: int64(r.Pick(0, 1000, 1000000)), Rebind: r.Bool(0.7), Again: r.Bool(0.4)}
+	}
+	if r.Bool(0.1) {
+		k := r.Intn(len(socks))
+		sc.LateHost = &k
 	}
 	if faulty && r.Bool(0.5) {
 		for i, n := 0, r.Range(1, 2); i < n; i++ {
@@ -860,6 +867,51 @@ func run(env *simrt.Env, sci interface{}) {
 	if !w.check(false, hadStop) {
 		return
 	}
+	if sc.LateHost != nil && !hadStop && !w.lossy {
+		from := w.socks[*sc.LateHost%len(w.socks)]
+		if !from.closed && from.remote == "" && from.bindIP != "127.0.0.1" {
+			rt := w.routerOf(from)
+			ip := strings.TrimSuffix(rt.cidr.IP.String(), ".0") + ".199"
+			dst := &net.UDPAddr{IP: net.ParseIP(ip), Port: 4000}
+			send := func() *sentT {
+				st := mkSend(from, dst, "direct", 24)
+				st.phase2 = true
+				cp := append([]byte(nil), st.payload...)
+				st.call = env.Stamp()
+				if _, err := from.pc.WriteTo(cp, dst); err != nil {
+					st.uncertain = true
+				}
+				st.ret = env.Stamp()
+				settle()
+				return st
+			}
+			send() // nobody holds the address yet: dropped by the router
+			n, err := vnet.NewNet(&vnet.NetConfig{StaticIPs: []string{ip}})
+			if err != nil {
+				env.Infra("NewNet late: %v", err)
+				return
+			}
+			if err := rt.r.AddNet(n); err != nil {
+				env.Fail("C01/late-host-refused", "attaching a host with the free address %s to the running router #%d failed: %v", ip, rt.idx, err)
+				return
+			}
+			c, err := n.ListenUDP("udp", dst)
+			if err != nil {
+				env.Infra("ListenUDP late: %v", err)
+				return
+			}
+			h := &hostT{spec: hostSpec{Router: rt.idx, NIPs: 1}, idx: len(w.hosts), n: n, ips: []string{ip}}
+			w.hosts = append(w.hosts, h)
+			ls := &sockT{gi: len(w.socks), host: h, spec: sockSpec{Connect: -1}, bindIP: ip, port: 4000, pc: c}
+			w.socks = append(w.socks, ls)
+			startReader(ls)
+			send() // now the address is held: the datagram has to arrive
+			env.Probe("late-host")
+			if !w.check(false, hadStop) {
+				return
+			}
+		}
+	}
 
 	// ---- phase 2: replies and unsolicited datagrams to observed translated sources
 	type obsT struct {
@@ -923,6 +975,11 @@ func run(env *simrt.Env, sci interface{}) {
 			var cands []*sockT
 			for _, s := range w.socks {
 				if !s.closed && s.host.spec.Router == o.st.from.host.spec.Router && s.remote == "" && s.bindIP != "127.0.0.1" {
+					if rt := w.routerOf(s); rt.spec.OneToOne {
+						if _, paired := rt.pairs[s.sourceIP(x.IP)]; !paired {
+							continue // a 1:1 NAT drops what comes from an unpaired local address
+						}
+					}
 					cands = append(cands, s)
 				}
 			}
